@@ -14,7 +14,7 @@ use crate::refexpand::{gen_program, render, ProgGen, Spelling};
 const ETC_FILE: &str = "/etc/totalmapper.json";
 
 // Enter a private mount namespace and cover /etc with an empty tmpfs. true on success.
-fn private_etc() -> Result<(), String> {
+pub fn private_etc() -> Result<(), String> {
   unsafe {
     if libc::unshare(libc::CLONE_NEWNS) != 0 { return Err(format!("unshare(CLONE_NEWNS): {}", std::io::Error::last_os_error())); }
     let root = CString::new("/").unwrap();
